@@ -164,6 +164,7 @@ type c09Resp struct {
 	StallAt      int           // >=0: deliver Body[:StallAt], then block until the request context ends
 	Chunks       int           // >0: deliver in this many chunks ...
 	Delay        time.Duration // ... pausing this long (bubble clock) before each
+	ClaimLen     int64         // >0: announced Content-Length (the body delivered is what Body/CutAt say, i.e. far shorter)
 }
 
 // c09Transport is the SimTransport: an http.RoundTripper routing to simulated peers.
@@ -222,8 +223,12 @@ func (t *c09Transport) RoundTrip(req *http.Request) (*http.Response, error) {
 		}
 	}
 	t.Open++
+	clen := int64(-1)
+	if r.ClaimLen > 0 {
+		clen = r.ClaimLen
+	}
 	return &http.Response{Status: fmt.Sprintf("%d %s", code, http.StatusText(code)), StatusCode: code, Proto: "HTTP/1.1", ProtoMajor: 1, ProtoMinor: 1,
-		Header: h, Body: b, ContentLength: -1, Request: req}, nil
+		Header: h, Body: b, ContentLength: clen, Request: req}, nil
 }
 
 type c09Body struct {
@@ -1072,7 +1077,7 @@ func c09Budget(k c09Knobs) int64 {
 
 // ---------------------------------------------------------------- part 1: back-channel fault sequences
 
-var c09ArtFaults = []string{"conn_err", "status", "empty", "trunc_err", "trunc_clean", "slow", "stall_headers", "stall_body",
+var c09ArtFaults = []string{"conn_err", "status", "empty", "trunc_err", "trunc_clean", "length_lie", "slow", "stall_headers", "stall_body",
 	"garbage", "soap_fault", "wrong_envelope", "wrong_irt", "bad_status", "unsigned", "wrong_key", "good"}
 var c09MdFaults = []string{"conn_err", "status", "empty", "trunc_err", "trunc_clean", "slow", "stall_headers", "stall_body",
 	"garbage", "wrong_doc", "good"}
@@ -1217,6 +1222,10 @@ func c09BackResp(st *c09Step, payload []byte) *c09Resp {
 		r.CutAt, r.CutErr = len(payload)*st.Pm/1000, io.ErrUnexpectedEOF
 	case "trunc_clean":
 		r.CutAt = len(payload) * st.Pm / 1000
+	case "length_lie":
+		// the peer announces far more than it delivers (1 GiB, 64 GiB or 2^62 bytes), then the connection dies
+		r.CutAt, r.CutErr = len(payload)*st.Pm/1000, io.ErrUnexpectedEOF
+		r.ClaimLen = []int64{1 << 30, 1 << 36, 1 << 62}[st.Variant%3]
 	case "stall_body":
 		r.StallAt = len(payload) * st.Pm / 1000
 	case "slow":
@@ -1293,10 +1302,17 @@ func c09ExecBack(p *Plan, k c09Knobs, res *Result) {
 			_ = hr.ParseForm()
 			var as *saml.Assertion
 			var err error
+			allocBefore := c09TotalAlloc()
 			pan = c09Guard(func() { as, err = spv.ParseResponse(hr, []string{c09ReqID}) })
+			grew := c09TotalAlloc() - allocBefore
 			cancel()
 			synctest.Wait()
 			spent := time.Since(t0)
+			if st.Fault == "length_lie" && pan == nil && grew > 256<<20 {
+				res.logf("step %d resolve fault=%s: allocated %d MB for a reply of a few hundred bytes", si, shape, grew>>20)
+				res.violate(si, "unbounded-allocation", "C09/alloc/ParseResponse/backchannel-"+shape, "allocation bounded by what was received", fmt.Sprintf("%d MB allocated", grew>>20), "the peer only announced that much")
+				return
+			}
 			observed = c09Observed(as, err, pan)
 			res.logf("step %d resolve fault=%s variant=%d layout=%s enc=%v pos=%d expect=%s observed=%s budget_ms=%d spent_ms=%d requests=%d", si, shape, st.Variant, st.Layout, st.Encrypt, pos, expect, observed, budget, spent.Milliseconds(), tr.Requests)
 			if !c.checkSP("ParseResponse/artifact", "backchannel-"+shape, expect, marker("nid", 0), as, err, pan) {
